@@ -242,61 +242,121 @@ impl<const N: usize> Exec<N> {
         let poisoned = self.view.insts[i].as_ref().unwrap().poisoned;
         let name = path_name(path);
         let deep = if poisoned { None } else { Some(self.deep(i)?) };
+        // reference image: what a complete save of this graph looks like (no fault, scratch path).
+        // Whatever the faulted save leaves behind is classified against it, so the harness does
+        // not have to assume how save() writes (in place, streaming, temp file + rename, fsync).
+        let reference: Option<Vec<u8>> = if poisoned {
+            None
+        } else {
+            let refname = "/sim/reference.sodg";
+            let g = self.gs[i].as_ref().unwrap();
+            let r = guarded(|| g.save(Path::new(refname)));
+            let bytes = {
+                let mut d = self.disk.borrow_mut();
+                d.disarm();
+                let names: Vec<String> = d.files.keys().filter(|k| !k.starts_with("/sim/image-")).cloned().collect();
+                let mut b = None;
+                for n in names {
+                    let f = d.files.remove(&n);
+                    if n == refname {
+                        b = f.map(|f| f.bytes);
+                    }
+                }
+                b
+            };
+            match r {
+                Ok(Ok(_)) => bytes,
+                Ok(Err(e)) => {
+                    return fail(
+                        "save.fails-without-fault",
+                        clauses::C08,
+                        format!("save() failed on a healthy disk: {e:#}"),
+                    )
+                }
+                Err(c) => return fail("panic.in-contract-call", clauses::PANIC_IO, format!("save() panicked: {c:?}")),
+            }
+        };
+        let before: Option<Vec<u8>> = self.disk.borrow().content(&name).map(<[u8]>::to_vec);
         self.disk.borrow_mut().arm_write(fault);
         let g = self.gs[i].as_ref().unwrap();
         let r = guarded(|| g.save(Path::new(&name)));
-        let (fired, accepted) = {
+        let (fired, accepted, recreated) = {
             let mut d = self.disk.borrow_mut();
-            let x = (d.fired, d.accepted);
+            let x = (d.fired, d.accepted, d.touched.contains(&name));
             d.disarm();
+            // temporary files a crashed save may have left are not what recovery reads
+            let names: Vec<String> = d.files.keys().filter(|k| !k.starts_with("/sim/image-")).cloned().collect();
+            for n in names {
+                d.files.remove(&n);
+            }
             x
         };
-        let size_on_disk = self.disk.borrow().content(&name).map_or(0, <[u8]>::len);
-        let pv = &mut self.view.paths[path];
-        // what create() did to the path
-        let created = !(matches!(fault, WFault::OpenFail) && fired);
-        if created {
-            let prev = std::mem::take(&mut pv.now);
-            pv.old = prev;
-            pv.unsynced = true;
-        }
-        pv.size = size_on_disk;
+        let after: Option<Vec<u8>> = self.disk.borrow().content(&name).map(<[u8]>::to_vec);
+        let unsynced = self.disk.borrow().files.get(&name).is_some_and(|f| !f.synced);
+        let size_on_disk = after.as_ref().map_or(0, Vec::len);
+        let changed = before != after || recreated;
         if fired {
             self.stats.bump(&format!("fault.{}", s.kind()));
         }
         let inst = self.view.insts[i].as_ref().unwrap();
+        let state = deep.map(|obs| {
+            Rc::new(SavedState {
+                m: inst.m.clone(),
+                obs,
+                src_inst: i,
+                src_version: inst.version,
+                len: size_on_disk,
+                next_v: inst.next_v,
+                oplog: inst.oplog.clone(),
+                crossed_clone: inst.crossed_clone,
+                merged: inst.merged,
+                readd_seen: inst.readd_seen,
+            })
+        });
+        let acked = matches!(r, Ok(Ok(_))) && !fired;
+        let pv = &mut self.view.paths[path];
+        if changed || acked {
+            let now = if poisoned {
+                OnDisk::Unknown
+            } else if acked {
+                OnDisk::Complete(state.clone().unwrap())
+            } else {
+                match (&after, &reference) {
+                    (None, _) => OnDisk::Missing,
+                    (Some(a), Some(rf)) if a == rf => {
+                        self.stats.bump("probe.unacknowledged_save_left_complete_image");
+                        OnDisk::Complete(state.clone().unwrap())
+                    }
+                    (Some(a), Some(rf)) if rf.starts_with(a) => OnDisk::Torn,
+                    _ => OnDisk::Unknown,
+                }
+            };
+            if changed {
+                pv.old = std::mem::replace(&mut pv.now, now);
+            } else {
+                pv.now = now;
+            }
+        } else if !fired {
+            self.stats.bump("probe.failed_save_left_old_image_untouched");
+        }
+        pv.unsynced = unsynced;
+        pv.size = size_on_disk;
         match r {
             Ok(Ok(size)) => {
                 if fired {
                     if poisoned {
-                        pv.now = OnDisk::Unknown;
                         return Ok(Applied::Done);
                     }
-                    pv.now = OnDisk::Torn;
                     return fail(
                         "save.reports-ok-after-failed-write",
                         clauses::C08,
                         format!("save() returned Ok({size}) although the disk refused the write ({fault:?}, {accepted} bytes accepted)"),
                     );
                 }
-                if poisoned {
-                    pv.now = OnDisk::Unknown;
-                } else {
+                if !poisoned {
                     if size != size_on_disk {
                         self.stats.bump("probe.save_size_differs_from_file");
                     }
-                    pv.now = OnDisk::Complete(Rc::new(SavedState {
-                        m: inst.m.clone(),
-                        obs: deep.unwrap(),
-                        src_inst: i,
-                        src_version: inst.version,
-                        len: size_on_disk,
-                        next_v: inst.next_v,
-                        oplog: inst.oplog.clone(),
-                        crossed_clone: inst.crossed_clone,
-                        merged: inst.merged,
-                        readd_seen: inst.readd_seen,
-                    }));
                     if inst.m.present.values().any(|v| v.unread) {
                         self.stats.bump("probe.save_with_unread_pending");
                     }
@@ -325,21 +385,14 @@ impl<const N: usize> Exec<N> {
                         format!("save() failed on a healthy disk: {e:#}"),
                     );
                 }
-                if created {
-                    pv.now = if poisoned { OnDisk::Unknown } else { OnDisk::Torn };
-                }
                 pv.dirty_since_fault = true;
                 self.stats.bump("save.failed_as_injected");
             }
             Err(Caught::Crash) => {
-                pv.now = if poisoned { OnDisk::Unknown } else { OnDisk::Torn };
                 pv.dirty_since_fault = true;
                 self.view.must_crash = true;
             }
             Err(Caught::Panic(p)) => {
-                if created {
-                    pv.now = OnDisk::Unknown;
-                }
                 if !poisoned {
                     return fail("panic.in-contract-call", clauses::PANIC_IO, format!("save() panicked: {p}"));
                 }
